@@ -733,6 +733,14 @@ func symText(g *grammar.Grammar, s int) string {
 
 // checkY compares the .y text with the compiled grammar. It returns "" or a key and a description.
 func checkY(g *grammar.Grammar, text string) (key, what string) {
+	// text that is not Bison at all: the Go/TS import post-processing of the generator
+	if loc := importBlockRE.FindStringIndex(text); loc != nil {
+		where := "declarations"
+		if i := strings.Index(text, "\n%%"); i >= 0 && loc[0] > i {
+			where = "rules"
+		}
+		return "foreign-import-block:" + where, fmt.Sprintf("the .y contains an import block of the target language in its %s section (offset %d)", where, loc[0])
+	}
 	y, err := parseY(text)
 	if err != nil {
 		return "unreadable-y:" + slug(err.Error(), 4), err.Error()
@@ -876,6 +884,7 @@ func sameMultiset(a, b []string) bool {
 	return strings.Join(x, "\x00") == strings.Join(y, "\x00")
 }
 
+var importBlockRE = regexp.MustCompile(`(?m)^import (\(|\{)`)
 var numRE = regexp.MustCompile(`[0-9]+`)
 var rejPosRE = regexp.MustCompile(`g\d+\.tm:\d+:\d+: `)
 var quotedRE = regexp.MustCompile(`'[^']*'`)
